@@ -58,7 +58,7 @@ CHECKS = {
              must_probe=['svx_berr_checked', 'svx_berr_small_checked', 'svx_ferr_checked']),
  'C08': dict(seed_offset=8, level='exploration', rule=RULE_A + "; a case here is a history of 2..8 operations over one sparsity pattern (first factorization, refactorizations with new values and optional pivot reuse, solves with existing factors, destroy + first factorization again), nprocs/strategy/schedule drawn anew per operation; the `alloc` batch adds C14's two-call configurations (re-factorization / factor reuse in a caller workspace of every boundary size, with more threads than the first call); a fifth of the histories starts from an exactly singular first factorization (zero column, zero row or two equal columns; info in 1..n with factors and perm_r handed back) made by 2..4 threads, mostly with one of them held back, and then refactorizes nonsingular values, mostly with pivot reuse at u = 0 or 0.01",
              props=['C08', 'C01', 'C02', 'C09', 'C07'],
-             batches=[dict(profile='hist', flavour='plain', quick=25000, thorough=1500000), dict(profile='hist', flavour='asan', quick=2500, thorough=100000), dict(profile='hist', flavour='long', quick=4000, thorough=200000), dict(profile='hist', flavour='omp', quick=4000, thorough=200000), dict(profile='alloc', flavour='plain', quick=128 * 20, thorough=1024 * 100, S=128, S_thorough=1024)],
+             batches=[dict(profile='hist', flavour='plain', quick=25000, thorough=1500000), dict(profile='hist', flavour='asan', quick=2500, thorough=100000), dict(profile='hist', flavour='long', quick=4000, thorough=200000), dict(profile='hist', flavour='omp', quick=4000, thorough=200000), dict(profile='alloc', flavour='plain', quick=128 * 48, thorough=1024 * 100, S=128, S_thorough=1024)],
              must_probe=['refactorizations', 'factored_calls', 'factor_reuse_solves_checked', 'usepr_all_old_pivots_pass', 'usepr_old_pivot_fails', 'user_workspace_calls', 'refactorizations_after_singular_factorization', 'pivot_reuse_after_singular_factorization']),
  'C14': dict(seed_offset=14, level='fault_enumeration',
              rule=("enumerating profile: configuration = seed div 128 (pattern, values, precision, driver, nprocs 1..4, tunables; 40 % of the configurations are two-call configurations: a fault-free first factorization through the expert driver "
